@@ -96,6 +96,14 @@ def main(argv=None) -> int:
     floor = list(mod.floor(a.tier)) if hasattr(mod, "floor") else []
     total = len(floor) + a.n
     mon = Monitor(prop)
+    # private scratch cwd: porepy writes gmsh_frac_file.msh etc. into the cwd, and
+    # concurrent workers would race on it
+    import shutil
+    import tempfile
+    home = os.getcwd()
+    scratch = str(Path(a.out).resolve().parent / f"cwd{a.offset}")
+    os.makedirs(scratch, exist_ok=True)
+    os.chdir(scratch)
     reach = Reach(getattr(mod, "REACH", ()), getattr(mod, "REACH_LINES", ()))
     if hasattr(mod, "warmup"):
         mod.warmup()
@@ -140,6 +148,8 @@ def main(argv=None) -> int:
     except Exception:
         out["porepy_path"] = "?"
     Path(a.out).write_text(json.dumps(to_jsonable(out)))
+    os.chdir(home)
+    shutil.rmtree(scratch, ignore_errors=True)
     return 0
 
 
